@@ -181,11 +181,15 @@ def replay_failing(family, ctx, failing, candidates, seed):
     """try to reproduce the undecided / refuted goals on the real code.
     failing: dict label -> verdict info.  Returns violation dict or None."""
     tried = 0
+    in_domain = 0
     for src, assignment in candidates:
+        if src == "random" and in_domain >= 60:
+            break
         tried += 1
         res, R = concrete_eval(family.fn, assignment, "mp")
         if "__skip__" in res:
             continue
+        in_domain += 1
         bad = None
         if "__raised__" in res:
             bad = ("__raised__", res["__raised__"])
@@ -194,10 +198,13 @@ def replay_failing(family, ctx, failing, candidates, seed):
                 if label in res and not res[label][0]:
                     bad = (label, res[label][1])
                     break
-            if bad is None and any(l.startswith("defined#") for l in failing):
+            if bad is None:
+                # the family has undecided goals: any goal of it that fails on the real code at a point of
+                # the domain is a genuine counterexample (e.g. the symbolic run stopped at an exception
+                # that concrete numbers do not raise, or an undefined sub-expression)
                 for label, (ok, detail) in res.items():
                     if not ok:
-                        bad = (label, detail + " (reached through an undefined sub-expression)")
+                        bad = (label, detail + " (found while replaying an undecided goal of this family)")
                         break
         if bad is None:
             continue
@@ -231,6 +238,8 @@ def run_family(family, opts):
     t0 = time.time()
     core.GLOBAL_STATS = core.Stats()
     timeout_ms = family.timeout_ms or opts.get("timeout_ms", 10000)
+    if getattr(family, "hunt", False):
+        timeout_ms = min(timeout_ms, 3000)  # outside the claim: go to the replay lane quickly
     hard_s = family.hard_s or opts.get("hard_s", 300)
     seed = opts.get("seed", 0)
     res = {
@@ -336,6 +345,9 @@ def run_family(family, opts):
                 inputs = {n: k for n, (_, k) in ctx.inputs.items()}
                 cands = [("solver-model", a) for a in models]
                 cands += [("stratified", a) for a in run.stratified_assignments(inputs, opts.get("n_candidates", 16), seed)]
+                import itertools as _it
+
+                cands = _it.chain(cands, (("random", a) for a in run.random_assignments(inputs, opts.get("n_random", 400), seed)))
                 viol = replay_failing(family, ctx, failing, cands, seed)
                 if viol is not None:
                     res["status"] = "violation"
